@@ -1,8 +1,8 @@
 package props
 
 import (
-	"go/token"
 	"fmt"
+	"go/token"
 	"strings"
 
 	"golang.org/x/tools/go/ssa"
